@@ -23,9 +23,27 @@ func VerifW1SwapClients(a *Agent, mk func(shardReplicaNum int, old rpc.Client) r
 	}
 }
 
-// NOTE: the agent's cancelSendsFunc is deliberately never called: no production path calls it, and
-// goEraseHistoric returns on <-cancelCtx.Done() with the shard mutex released while its deferred
-// s.mu.Unlock() is pending (fatal "unlock of unlocked mutex").
+// NOTE: no production path calls the agent's cancelSendsFunc, and goEraseHistoric returns on
+// <-cancelCtx.Done() with the shard mutex released while its deferred s.mu.Unlock() is pending
+// (fatal "unlock of unlocked mutex" if the context were ever cancelled). VerifW1StopEraser uses the
+// cancellation only to end that goroutine of an already killed agent at the very end of a run, and
+// takes the shard mutex first so that the pending Unlock is balanced.
+
+// VerifW1StopEraser ends the goEraseHistoric goroutines of a killed agent. Precondition: each of
+// them sits in its 60 s select (one entry was pushed after the queue had been cleared).
+func VerifW1StopEraser(a *Agent) {
+	for _, s := range a.Shards {
+		s.mu.Lock() // released by the deferred s.mu.Unlock() of goEraseHistoric
+	}
+	a.cancelSendsFunc()
+}
+
+// VerifW1CloseDisk closes the disk cache files of a killed agent.
+func VerifW1CloseDisk(a *Agent) {
+	if a.diskBucketCache != nil {
+		_ = a.diskBucketCache.Close()
+	}
+}
 
 // VerifW1ClearHistoricQueue empties the in-memory historic queue of a killed agent so that its erase
 // goroutine parks for good.
